@@ -109,7 +109,8 @@ def generate(cls, rng):
             for _ in range(rng.randrange(2, 7)):
                 when = [rng.choice(YEARS),
                         rng.choice(["start", "end"]),
-                        rng.choice([-86400, -1800, -1, 0, 1, 1800, 86400,
+                        rng.choice([-86400, -1800, -1, 0, 1, 1800, 86400, -0.5, -0.000001,
+                                    0.25, 15, 31, 46,
                                     rng.randrange(-10 ** 7, 10 ** 7)])]
                 if builds and rng.random() < 0.6:
                     # a zone constructed inside the thread (the TZ-string
@@ -169,7 +170,8 @@ def generate(cls, rng):
             ops.append(["query", "h%d" % rng.randrange(handles),
                         rng.choice(YEARS),
                         rng.choice(["start", "end"]),
-                        rng.choice([-86400, -1800, -1, 0, 1, 1800, 86400,
+                        rng.choice([-86400, -1800, -1, 0, 1, 1800, 86400, -0.5, -0.000001,
+                                    0.25, 15, 31, 46,
                                     rng.randrange(-10 ** 7, 10 ** 7)])])
         elif r < 0.93:
             ops.append(["malformed", rng.randrange(len(specs)),
